@@ -158,3 +158,22 @@ package bridgesync
 //@   assert call:Push:1 currentCall.Err == nil && c.Err == nil
 //@   loop 0 invariant callStack != nil && logger != nil
 //@   loop 1 invariant callStack != nil && logger != nil && 0 <= rangeindex + 1 && rangeindex + 1 <= len(currentCall.Calls)
+
+// ---- reading the events of a block range back (C02, C03, C05: "every exit exactly once and in chain order" rests on
+// this statement's range condition and ordering; assumed semantics A5, text pinned). The table name is the caller's.
+//@ func (p *processor) queryBlockRange
+//@   props C02 C03 C05
+//@   trusted
+//@   sqltext "SELECT * FROM %s WHERE block_num >= $1 AND block_num <= $2 ORDER BY block_num ASC, block_pos ASC;"
+//@ func (p *processor) getLastProcessedBlockWithTx
+//@   props C02 C03 C05
+//@   trusted
+//@   sqltext "SELECT num FROM block ORDER BY num DESC LIMIT 1;"
+//@ func (p *processor) GetBridges
+//@   props C02 C03
+//@   trusted
+//@   consttext "bridge"
+//@ func (p *processor) GetClaims
+//@   props C02 C03
+//@   trusted
+//@   consttext "claim"
